@@ -19,19 +19,19 @@ import (
 )
 
 type vfC16Spec struct {
-	Type       string `json:"type"`
-	Network    string `json:"network"`
-	Address    string `json:"address"`
-	AddrForm   string `json:"addr_form"`
-	Port       int    `json:"port"`
-	Component  uint16 `json:"component"`
-	Priority   uint32 `json:"priority"`
-	Foundation string `json:"foundation"`
-	TCPType    string `json:"tcptype"`
-	RelForm    string `json:"rel_form"`
-	RelAddr    string `json:"rel_addr"`
-	RelPort    int    `json:"rel_port"`
-	Relay      string `json:"relay_protocol"`
+	Type       string      `json:"type"`
+	Network    string      `json:"network"`
+	Address    string      `json:"address"`
+	AddrForm   string      `json:"addr_form"`
+	Port       int         `json:"port"`
+	Component  uint16      `json:"component"`
+	Priority   uint32      `json:"priority"`
+	Foundation string      `json:"foundation"`
+	TCPType    string      `json:"tcptype"`
+	RelForm    string      `json:"rel_form"`
+	RelAddr    string      `json:"rel_addr"`
+	RelPort    int         `json:"rel_port"`
+	Relay      string      `json:"relay_protocol"`
 	Exts       [][2]string `json:"extensions"`
 }
 
